@@ -16,6 +16,7 @@ DOC = {
  "C03.R2": "signal race (sink): biased, Signal first, exactly the caller's future second, no stop receiver in the race",
  "C03.R3": "K14: no task root / public future carries an un-raced callback (R tag); all 5 hooks x 2 runtimes reach the sink",
  "C03.R4": "outcome table of process_message: Signal -> signal(); Stop -> stop(reason); sink Err(signal) -> signal(); ok -> ok(); constructors' constants",
+ "C03.R6": "stop / kill requests are always attempted: send_stop and send_signal take their port slot on every path, consult no status, deliver their argument; ActorCell::stop/kill always forward",
  "C03.R5": "who-may-touch: stop receiver only by priority listen and Drop; signal receiver only by sink, listen and Drop",
 }
 
@@ -213,9 +214,38 @@ def r5(run, db):
     run.anchor("stop_rx touch sites", nstop, 2)
 
 
+def r6(run, db):
+    from .locks import acquisitions
+    for nm, fld in (("send_stop", "stop"), ("send_signal", "signal")):
+        fs = [f for f in db.crate_fns("ractor") if f.id.endswith("ActorProperties::" + nm)]
+        run.anchor("ActorProperties::" + nm, len(fs), 1)
+        for f in fs:
+            run.saw(len(f.blocks), f)
+            acq = [a for a in acquisitions(f) if a.kind == "mutex" and any(re.search(r"(^|[.:])%s(\.|$)" % fld, i) for i in a.lock_ids)]
+            run.check(len(acq) == 1 and f.must_pass(f.entry(), [acq[0].call.site]), nm + "|always-attempts-delivery", "%s takes the %s port slot on every path (the request is always attempted, whatever the actor's status)" % (nm, fld),
+                      "%s can return without touching the %s port (e.g. a status short-cut): a %s issued while the actor is draining is silently dropped and lower-priority work keeps starting" % (nm, fld, fld), f.where())
+            gs = [c for c in f.calls() if c.is_("get_status")]
+            run.check(not gs, nm + "|no-status-shortcut", "%s does not consult the status" % nm, "%s consults the actor status before delivering" % nm, f.where())
+            tk = [c for c in f.calls() if c.matches(r"Option::<T>::take$")]
+            run.check(len(tk) == 1, nm + "|one-shot-port", "the port is take()n: at most one %s is ever delivered" % fld, None, f.where())
+            # the closure sends the message it was given
+            for g in db.children(f.id):
+                snd = [c for c in g.calls() if c.matches(r"oneshot::Sender::<T>::send$|OneshotSender|Sender::<T>::send$")]
+                if snd:
+                    okm = all(r["k"] == "upvar" for r in g.origins(snd[0].args[1])) and g.origins(snd[0].args[1])
+                    run.check(bool(okm), nm + "|sends-its-argument", "the value sent on the port is the caller's request", None, g.where())
+    # public entry points forward
+    for nm, inner in (("stop", "send_stop"), ("kill", "send_signal")):
+        fs = [f for f in db.crate_fns("ractor") if f.id.endswith("ActorCell::" + nm)]
+        for f in fs:
+            cs = [c for c in f.calls() if c.callee and c.callee.endswith("ActorProperties::" + inner)]
+            run.check(len(cs) == 1 and f.must_pass(f.entry(), [cs[0].site]), "ActorCell::%s|forwards" % nm, "ActorCell::%s always forwards to %s" % (nm, inner), "ActorCell::%s does not always forward" % nm, f.where())
+
+
 Q = ["dflt", "rc"]
 TH = ["dflt", "rc", "atr", "astd", "mon", "opv2"]
 RULES = [
+    {"id": "C03.R6", "fn": r6, "quick": Q, "thorough": TH},
     {"id": "C03.R1", "fn": r1, "quick": Q, "thorough": TH},
     {"id": "C03.R2", "fn": r2, "quick": Q, "thorough": TH},
     {"id": "C03.R3", "fn": r3, "quick": Q, "thorough": TH},
